@@ -6,6 +6,7 @@
 //   kdt  <level> <dim> <max_points> <hex>                    | ok <n> <flat points in output order> <unread bytes> / fail
 //   kpc  <speed> <num_points> <num_atts> <att>...            | stream of Encoder (POINT_CLOUD_KD_TREE_ENCODING) / fail
 //   kdpc <hex>                                               | ok <np> <na> <att>... <unread> / fail
+//   kdpcs <skipped attribute types> <hex>                    | the same with SetSkipAttributeTransform (portable values, unique id, .T<params>)
 #include "common.h"
 #include <algorithm>
 #include <cmath>
